@@ -53,6 +53,10 @@ var (
 	measF4        = bytes.Repeat([]byte{0xf4}, 48) // "firmware" whose bucket object carries a forged signature
 	measBad       = bytes.Repeat([]byte{0xbd}, 48) // not endorsed
 	measBad2      = bytes.Repeat([]byte{0xbe}, 48) // not endorsed
+	measC4        = bytes.Repeat([]byte{0xc4}, 48) // firmware C: its genuine endorsement exists but only its payload ever travels, under A's signature
+	measR1        = bytes.Repeat([]byte{0xe1}, 48) // not endorsed; listed by the forgery replay/measurement-replaced
+	measR2        = bytes.Repeat([]byte{0xe2}, 48) // not endorsed; listed by the forgery replay/measurement-added
+	measR3        = bytes.Repeat([]byte{0xe3}, 48) // not endorsed; listed by the forgery replay/signer-cert-only
 )
 
 // The kinds of attestation a call may present. Every kind names a measurement and the endorsement
@@ -66,11 +70,16 @@ var (
 //	fwB          firmware B / 4 VMSAs, B's genuine endorsement
 //	forged       an endorsement whose signature is corrupted (with A's measurement where the
 //	             endorsement travels with the call; with its own measurement in the bucket)
+//	replay/...   a measurement nobody endorsed (or firmware C's) accompanied by a forgery assembled
+//	             from parts of A's genuine endorsement (replay_test.go); as blob argument,
+//	             certificate-table entry or the bucket object named after that measurement
 var (
 	oldKinds = []string{"endorsed", "other-count", "unendorsed"}
-	allKinds = []string{"endorsed", "other-count", "unendorsed", "unendorsed2", "fwB", "forged"}
+	allKinds = append([]string{"endorsed", "other-count", "unendorsed", "unendorsed2", "fwB", "forged"}, replayFamilies...)
 	newKinds = []string{"endorsed", "fwB", "forged"}
 )
+
+var replayMeas = map[string][]byte{"replay/measurement-replaced": measR1, "replay/measurement-added": measR2, "replay/other-payload": measC4, "replay/signer-cert-only": measR3}
 
 // gate is the schedule control point: the trusted-root constraint callback runs inside chain
 // verification, i.e. after the validator has noted the call's measurement and before it compares.
@@ -117,6 +126,7 @@ type fixture struct {
 	blobA    []byte
 	blobB    []byte
 	forgedA  []byte
+	replay   map[string][]byte // forgery family -> blob
 	getter   *bucketGetter
 	// pristine[variant|kind] = the verdict (accept?) of that call alone on a fresh validator,
 	// computed before any validator was shared.
@@ -170,6 +180,12 @@ func newFixture() *fixture {
 		bucketURL(measB4):        f.blobB,
 		bucketURL(measF4):        corruptSignature(blobF),
 	}}
+	eC := pki.Endorse(golden(map[uint32][]byte{4: measC4}), f.signCert.Raw, pki.Key(1))
+	f.replay = map[string][]byte{}
+	for _, fam := range replayFamilies {
+		f.replay[fam] = mustMarshal(forgeReplay(fam, f.eA, eC, replayMeas[fam]))
+		f.getter.objects[bucketURL(replayMeas[fam])] = f.replay[fam]
+	}
 	return f
 }
 
@@ -195,7 +211,10 @@ func (f *fixture) input(kind string, bucket bool) (meas, blob []byte) {
 			meas, blob = measEndorsed4, f.forgedA
 		}
 	default:
-		panic("harness: kind " + kind)
+		if !isReplay(kind) || f.replay[kind] == nil {
+			panic("harness: kind " + kind)
+		}
+		meas, blob = replayMeas[kind], f.replay[kind]
 	}
 	if bucket {
 		blob = nil
@@ -242,8 +261,13 @@ const firstNewVariant = 6
 // mustReject: the statement's "a report whose measurement is not endorsed is rejected whatever other
 // validations are in flight", per kind: the measurement is in no endorsement; or it is endorsed for
 // another VMSA count than the configured one; or the endorsement in use is another firmware's; or
-// the endorsement in use carries a corrupted signature.
+// the endorsement in use carries a corrupted signature; or the endorsement in use is a forgery made
+// of parts of a genuine one (where an endorsement is configured, firmware A's, the measurement of
+// such a call is simply not in it).
 func mustReject(v *variant, kind string) bool {
+	if isReplay(kind) {
+		return true
+	}
 	switch kind {
 	case "unendorsed", "unendorsed2":
 		return true
@@ -379,18 +403,29 @@ func isolated(f *fixture, v *variant, kind string) error {
 }
 
 // computePristine records every (variant, kind)'s verdict alone on a fresh validator before anything
-// is shared, the kinds that must be rejected first. A verdict that contradicts what the harness
+// is shared: first the forgeries made of parts of a genuine endorsement, then the other kinds that
+// must be rejected, then the rest. A forgery's verdict in isolation is taken in a TWIN fixture (own
+// signing certificate, own signatures, own forgeries, used for nothing else): neither has anything
+// carried the genuine endorsement the forgery is made of when it is judged (an "unendorsed" call
+// carries it too), nor has this fixture's genuine endorsement met its forgeries before its own
+// verdict in isolation is taken. Verdicts do not depend on the signature bytes. A verdict that contradicts what the harness
 // expects of the repository's semantics is not a re-entrancy matter: it is noted, counted as
 // inconclusive and switches the corresponding absolute expectation off.
 func (f *fixture) computePristine(name string) {
 	f.pristine = map[string]bool{}
-	for _, wantReject := range []bool{true, false} {
+	twin := newFixture()
+	for pass := 0; pass < 3; pass++ {
+		wantReject := pass < 2
 		for _, v := range variants {
 			for _, k := range allKinds {
-				if mustReject(v, k) != wantReject {
+				if mustReject(v, k) != wantReject || isReplay(k) != (pass == 0) {
 					continue
 				}
-				acc := isolated(f, v, k) == nil
+				in := f
+				if pass == 0 {
+					in = twin
+				}
+				acc := isolated(in, v, k) == nil
 				f.pristine[v.name+"|"+k] = acc
 				if acc == wantReject {
 					ev.Class(name, "inconclusive/isolated-verdict-not-as-expected")
@@ -623,6 +658,9 @@ func judge(t ev.TB, f *fixture, v *variant, kind string, got error, history stri
 		if kind == "forged" {
 			key = "C09/forged-endorsement-accepted-after-reuse"
 		}
+		if isReplay(kind) {
+			key = replayKey
+		}
 		return report(key, fmt.Sprintf("variant %s, %s: a call of kind %s was ACCEPTED; it must be rejected whatever other validations ran or are in flight (alone on a fresh validator now: %s, %v)", v.name, history, kind, okStr(want), want))
 	}
 	if (got == nil) != (want == nil) {
@@ -704,7 +742,39 @@ func checkSchedule(t ev.TB, name string, f *fixture, v *variant, kinds []string,
 	if info.overlap && !info.serialised {
 		ev.Class(name, "overlap/"+familyOf(v))
 	}
+	replayClasses(name, kinds, res, info.overlap && !info.serialised)
 	return true
+}
+
+// genuineA: the kinds that present firmware A's genuine endorsement with a measurement it lists.
+func genuineA(kind string) bool { return kind == "endorsed" || kind == "other-count" }
+
+// replayClasses counts, for every call of a case that presented a forgery made of parts of A's
+// genuine endorsement, whether the same shared object also ACCEPTED a call carrying that genuine
+// endorsement (before, after or, in an overlapping schedule, meanwhile).
+func replayClasses(name string, kinds []string, res []error, overlap bool) {
+	for i, k := range kinds {
+		if !isReplay(k) {
+			continue
+		}
+		before, other := false, false
+		for j := range kinds {
+			if j != i && genuineA(kinds[j]) && res[j] == nil {
+				other = true
+				before = before || j < i
+			}
+		}
+		switch {
+		case other && overlap:
+			ev.Class(name, "forgery/"+k+"/overlapping-an-accepted-genuine-call")
+		case before:
+			ev.Class(name, "forgery/"+k+"/after-an-accepted-genuine-call")
+		case other:
+			ev.Class(name, "forgery/"+k+"/before-an-accepted-genuine-call")
+		default:
+			ev.Class(name, "forgery/"+k+"/no-accepted-genuine-call-in-the-case")
+		}
+	}
 }
 
 func familyOf(v *variant) string {
@@ -775,7 +845,7 @@ func constant(c []string) bool {
 	return true
 }
 
-const enumeratedRule = "one shared object per variant: a verify.SNPValidateFunc closure {endorsement = each call's blob argument / Options.Endorsement / fetched through Options.Getter because the call has neither; Options.SNP set (VMSA count 0 or 4) or nil}, a reused go-sev-guest validate.Options built as SevValidate builds it {endorsement in each attestation's certificate table / absent, so the closure fetches}, or one gcetcbendorsement.SevValidateOptions passed to concurrent SevValidate calls {endorsement from the certificate table / from the bucket / Options.Endorsement; VMSA count 0 or 4; base policy with and without overwrite}; k=2 and k=3 calls, each of a kind {endorsed, endorsed for another VMSA count, unendorsed, firmware B with B's own endorsement, endorsement with a corrupted signature}; schedule = every interleaving of {start call i until it parks inside chain verification, release call i until it returns} (6 for k=2, 90 for k=3), the park point being the x509 root-constraint callback; a call that does not reach the park point while another is parked is treated as an implementation serialising its calls (parked calls are released, the case is counted as serialised); oracle: each call's accept/reject equals its result alone on a fresh object before anything was shared in this process AND (recomputed once per kind combination in the enumeration, for every case elsewhere) alone on a fresh object after the shared run; a kind that must be rejected (unendorsed; other count under VMSA count 4; firmware B under A's configured endorsement; corrupted signature) is rejected; the caller's options are unchanged; non-trivial = a call of another kind was started while a call was REALLY parked; distinct = (variant, kinds, schedule); quick tier: k=2 complete over all kinds, k=3 over a fixed subset of kind combinations and (round-4 variants) every fifth schedule"
+const enumeratedRule = "one shared object per variant: a verify.SNPValidateFunc closure {endorsement = each call's blob argument / Options.Endorsement / fetched through Options.Getter because the call has neither; Options.SNP set (VMSA count 0 or 4) or nil}, a reused go-sev-guest validate.Options built as SevValidate builds it {endorsement in each attestation's certificate table / absent, so the closure fetches}, or one gcetcbendorsement.SevValidateOptions passed to concurrent SevValidate calls {endorsement from the certificate table / from the bucket / Options.Endorsement; VMSA count 0 or 4; base policy with and without overwrite}; k=2 and k=3 calls, each of a kind {endorsed, endorsed for another VMSA count, unendorsed, firmware B with B's own endorsement, endorsement with a corrupted signature, forgery made of parts of firmware A's genuine endorsement: A's signature replayed over A's payload with the 4-VMSA measurement replaced by / with an added unendorsed measurement, A's signature replayed over another genuine endorsement's payload, A's signer certificate kept in an edited payload signed with a foreign key; the forgery is the blob argument, the certificate-table entry or the bucket object named after its measurement}; schedule = every interleaving of {start call i until it parks inside chain verification, release call i until it returns} (6 for k=2, 90 for k=3), the park point being the x509 root-constraint callback; a call that does not reach the park point while another is parked is treated as an implementation serialising its calls (parked calls are released, the case is counted as serialised); oracle: each call's accept/reject equals its result alone on a fresh object before anything was shared in this process AND (recomputed once per kind combination in the enumeration, for every case elsewhere) alone on a fresh object after the shared run; a kind that must be rejected (unendorsed; other count under VMSA count 4; firmware B under A's configured endorsement; corrupted signature; every forgery) is rejected (the forgeries under key forgery-replaying-parts-of-a-genuine-endorsement-accepted); the caller's options are unchanged; non-trivial = a call of another kind was started while a call was REALLY parked; distinct = (variant, kinds, schedule); classes forgery/<family>/{after, before, overlapping}-an-accepted-genuine-call count the forgery calls whose shared object also accepted A's genuine endorsement; quick tier: k=2 complete over the first five kinds plus every forgery family x {endorsed, firmware B} in both orders (thorough: x all five), k=3 over a fixed subset of kind combinations and (round-4 variants) every fifth schedule"
 
 func TestSchedulesExhaustive(t *testing.T) {
 	if os.Getenv("VERIF_RACE") == "1" {
@@ -793,6 +863,23 @@ func TestSchedulesExhaustive(t *testing.T) {
 				f.recheck = si == 5 // the fresh-object oracle is recomputed once per combination, after the other schedules
 				if !checkSchedule(t, name, f, v, kinds, s) {
 					return
+				}
+			}
+		}
+		// k=2: a forgery made of parts of A's genuine endorsement next to another call, both orders
+		partners := []string{"endorsed", "fwB"}
+		if thorough {
+			partners = []string{"endorsed", "other-count", "unendorsed", "fwB", "forged"}
+		}
+		for _, fam := range replayFamilies {
+			for _, g := range partners {
+				for _, kinds := range [][]string{{g, fam}, {fam, g}} {
+					for si, s := range schedules(2) {
+						f.recheck = si == 5
+						if !checkSchedule(t, name, f, v, kinds, s) {
+							return
+						}
+					}
 				}
 			}
 		}
@@ -856,7 +943,7 @@ func TestSchedulesSampledK4(t *testing.T) {
 		t.Skip("schedule sampling runs in the non-race binary")
 	}
 	const name = "schedules/sampled-k4"
-	ev.Rule(name, "as schedules/enumerated with k=4 calls (2520 interleavings x 1296 kind combinations x all variants), sampled by rapid; same oracle")
+	ev.Rule(name, "as schedules/enumerated with k=4 calls (2520 interleavings x 1296 kind combinations x all variants), sampled by rapid over all ten kinds (forgery families included); same oracle")
 	f := newFixture()
 	f.computePristine(name)
 	all := schedules(4)
@@ -880,7 +967,7 @@ func TestSequentialReuse(t *testing.T) {
 		t.Skip()
 	}
 	const name = "sequential-reuse"
-	ev.Rule(name, "one shared object (any variant of schedules/enumerated) used for 2-8 calls in sequence with drawn kinds; oracle as in schedules/enumerated; non-trivial = the sequence contains two different kinds and both an accepted and a rejected call; distinct = (variant, kind sequence)")
+	ev.Rule(name, "one shared object (any variant of schedules/enumerated) used for 2-8 calls in sequence with drawn kinds (all ten: the six plain ones and the four forgery families of replay_test.go); classes forgery/<family>/after-an-accepted-genuine-call count forgeries presented to an object that accepted firmware A's genuine endorsement earlier in the sequence; oracle as in schedules/enumerated; non-trivial = the sequence contains two different kinds and both an accepted and a rejected call; distinct = (variant, kind sequence)")
 	f := newFixture()
 	f.computePristine(name)
 	checks(ev.Scale(150, 2000))
@@ -890,6 +977,7 @@ func TestSequentialReuse(t *testing.T) {
 		call, snap := v.make(f, v)
 		before := snap()
 		sawAcc, sawRej := false, false
+		res := make([]error, 0, len(kinds))
 		for i, k := range kinds {
 			got := guard(call, k)
 			ok, stop := judge(rt, f, v, k, got, fmt.Sprintf("sequence %v, call %d", kinds, i))
@@ -898,12 +986,14 @@ func TestSequentialReuse(t *testing.T) {
 			}
 			sawAcc = sawAcc || got == nil
 			sawRej = sawRej || got != nil
+			res = append(res, got)
 		}
 		if after := snap(); after != before {
 			ev.Violation(rt, "C09/caller-options-mutated", "variant %s, sequence %v: the caller's options changed across calls: before %s after %s", v.name, kinds, before, after)
 			return
 		}
 		ev.Case(name, sawAcc && sawRej && !constant(kinds), v.name+"|"+strings.Join(kinds, ","), familyOf(v), func() any { return map[string]any{"variant": v.name, "sequence": kinds} })
+		replayClasses(name, kinds, res, false)
 	})
 }
 
@@ -911,7 +1001,7 @@ func TestSequentialReuse(t *testing.T) {
 // Any data race is reported by the race detector, which fails the test.
 func TestRaceFreeRunning(t *testing.T) {
 	const name = "race/free-running"
-	ev.Rule(name, "binary built with -race; 8 goroutines share one object (every variant of schedules/enumerated, including one SevValidateOptions passed to concurrent SevValidate calls) and validate attestations of all kinds concurrently without any schedule control; oracle: each result equals the result alone on a fresh object computed before the goroutines start, what must be rejected is rejected, and the race detector reports nothing (a report fails the test); one case per (variant, goroutine); non-trivial = that goroutine saw another call in flight during one of its calls; distinct = (variant, goroutine)")
+	ev.Rule(name, "binary built with -race; 8 goroutines share one object (every variant of schedules/enumerated, including one SevValidateOptions passed to concurrent SevValidate calls) and validate attestations of all ten kinds (the forgeries made of parts of firmware A's genuine endorsement included, next to calls accepting that endorsement) concurrently without any schedule control; oracle: each result equals the result alone on a fresh object computed before the goroutines start, what must be rejected is rejected, and the race detector reports nothing (a report fails the test); one case per (variant, goroutine); non-trivial = that goroutine saw another call in flight during one of its calls; distinct = (variant, goroutine)")
 	if os.Getenv("VERIF_RACE") != "1" {
 		ev.Note("race sub-check runs in the separate -race binary")
 		t.Skip("runs in the -race binary")
@@ -951,6 +1041,9 @@ func TestRaceFreeRunning(t *testing.T) {
 						bad, key = fmt.Sprintf("kind %s accepted under concurrency", kind), "C09/unendorsed-accepted-under-interleaving"
 						if kind == "forged" {
 							key = "C09/forged-endorsement-accepted-after-reuse"
+						}
+						if isReplay(kind) {
+							key = replayKey
 						}
 					case (err == nil) != want:
 						bad = fmt.Sprintf("kind %s got %s under concurrency (%v), alone on a fresh object %v", kind, okStr(err), err, accStr(want))
